@@ -18,11 +18,14 @@ import math
 import warnings
 from fractions import Fraction
 
-from .common import REPO, add_failure, bump, new_outcome, rat, unrat
+from .common import LEAN, REPO, SRC, VERIF, add_failure, bump, new_outcome, rat, unrat
 
 PROP = "C16"
-PROPS_FILES = ["CogentModel/Props/C16.lean", "CogentModel/Props/C16Link.lean"]
-LEAN_TARGETS = ["CogentModel.Props.C16", "CogentModel.Props.C16Link"]
+# Proofs/OptGen.lean is listed as well: its theorems are the obligations "generated definition = hand model", and a source
+# edit that breaks one of them is then reported by name
+PROPS_FILES = ["CogentModel/Props/C16.lean", "CogentModel/Props/C16Link.lean", "CogentModel/Proofs/OptGen.lean",
+               "CogentModel/Props/C16Gen.lean"]
+LEAN_TARGETS = ["CogentModel.Props.C16", "CogentModel.Props.C16Link", "CogentModel.Proofs.OptGen", "CogentModel.Props.C16Gen"]
 DRIVER = "drv_c16"
 TRUSTED = [
     "hand-written model lean/CogentModel/Model/Optimiser.lean of maximise's wrapper stack (limited_use, "
@@ -32,6 +35,13 @@ TRUSTED = [
     "optimiser, exceptions) and against the real projection functions",
     "the optimisers (Powell, SimulatedAnnealing) are NOT modelled: the theorems quantify over every finite query "
     "sequence, so nothing about them is trusted",
+    "translator/c16_opt2lean.py (ast only) + lean/CogentModel/Model/OptGenPrelude.lean (the state/exception monad the "
+    "generated `do` blocks run in: state survives a raise, try/except, try/finally, one objective call = one log entry): "
+    "Gen/C16Opt.lean is rewritten on every run from the CURRENT source of limited_use, bounded_function, "
+    "bounds_exception_catching_function, maximise, Calculator.optimise, ParameterController.optimise and "
+    "Props/C16Gen.lean proves each generated definition equal to the hand model for all arguments; translator "
+    "conventions B1-B5 (dead display/check-pointing names dropped, numpy.array/.copy() identity, None where an array is "
+    "required raises at the binding, hoisted locals, warnings counted) are trusted",
     "definition of cellRate (exchangeability at a cell = product of the values of the rules covering it; parameters "
     "without a rule and the reference cell contribute 1)",
 ]
@@ -45,6 +55,27 @@ ASSUMPTIONS = [
 ]
 
 TOL = 1e-9
+GEN_FILE = LEAN / "CogentModel" / "Gen" / "C16Opt.lean"
+
+
+# --------------------------------------------------------------------------
+# translator step: the optimiser wrapper stack, re-translated from the current source on every run
+# --------------------------------------------------------------------------
+def generate(ctx):
+    import json
+    import sys
+
+    sys.path.insert(0, str(VERIF))
+    from translator import c16_opt2lean as T
+
+    try:
+        lean, info, problems = T.translate(SRC)
+    except T.TranslationError as e:
+        return [f"c16_opt2lean: {e}"]
+    ctx.notes.append("c16_opt2lean: " + json.dumps(info)[:600])
+    if lean is not None and T.write_if_changed(GEN_FILE, lean):
+        ctx.notes.append("Gen/C16Opt.lean was rewritten (the optimiser stack's source differs from the last generated text)")
+    return [f"c16_opt2lean: {p}" for p in problems]
 
 
 def _tol(v):
@@ -2127,7 +2158,14 @@ def spec_check(ctx, budget):
     _spec_hypothesis(ctx, out, rng, budget)
     _spec_apps(ctx, out, rng, budget)
     _spec_declared(ctx, out, rng, budget)
+    from . import c16_script
+
+    c16_script.spec_stream(ctx, out, ctx.subrng(f"script{budget}"), budget, _script_helpers(), TREES)
     return out
+
+
+def _script_helpers():
+    return dict(alignment=_alignment, mk_lf=_mk_lf, random_start=_random_start, tol=_tol, bounds_problem=_bounds_problem)
 
 
 # --------------------------------------------------------------------------
@@ -2168,6 +2206,10 @@ def _rerun(case):
         return _run_app_case(case)
     if case.get("check") == "declared":
         return _run_declared_case(case)
+    if case.get("check") == "script":
+        from . import c16_script
+
+        return c16_script.run_case(case, _script_helpers())
     return None, {}
 
 
